@@ -55,6 +55,29 @@ theorem C15_roundtrip (count : Nat) (frac : Rat) (p : Nat) (h0 : 0 ≤ frac) :
     printedValue pr p = (pr.1 : Rat) + (pr.2 : Rat) / ((10 ^ p : Nat) : Rat) :=
   ⟨fmtFixed_nearest count frac p h0, rfl⟩
 
+/-- **sorting key** (`Phase.argsort`/`sort` order lexicographically by count, then fraction): for
+normalised parts — integer counts, `|fraction| ≤ 1/2` — the lexicographic order implies the order of
+the exact values, so a list sorted by the key is sorted by value, whatever the magnitude of the
+counts; and two phases with equal keys are equal. -/
+theorem C15_sort_key (c1 c2 : ℤ) (f1 f2 : ℚ) (h1 : |f1| ≤ 1 / 2) (h2 : |f2| ≤ 1 / 2)
+    (hlex : c1 < c2 ∨ (c1 = c2 ∧ f1 ≤ f2)) : (c1 : ℚ) + f1 ≤ (c2 : ℚ) + f2 := by
+  have a1 := abs_le.1 h1
+  have a2 := abs_le.1 h2
+  rcases hlex with h | ⟨h, hf⟩
+  · have : (c1 : ℚ) + 1 ≤ (c2 : ℚ) := by exact_mod_cast h
+    linarith [a1.2, a2.1]
+  · subst h; linarith
+
+theorem C15_sort_key_list (l : List (ℤ × ℚ)) (hn : ∀ p ∈ l, |p.2| ≤ 1 / 2)
+    (hs : l.Pairwise (fun a b => a.1 < b.1 ∨ (a.1 = b.1 ∧ a.2 ≤ b.2))) :
+    l.Pairwise (fun a b => (a.1 : ℚ) + a.2 ≤ (b.1 : ℚ) + b.2) := by
+  induction l with
+  | nil => exact List.Pairwise.nil
+  | cons x xs ih =>
+    rw [List.pairwise_cons] at hs ⊢
+    refine ⟨fun b hb => ?_, ih (fun p hp => hn p (List.mem_cons_of_mem _ hp)) hs.2⟩
+    exact C15_sort_key x.1 b.1 x.2 b.2 (hn x (List.mem_cons_self ..)) (hn b (List.mem_cons_of_mem _ hb)) (hs.1 b hb)
+
 example : shift [0] [1, 8] (-2) = ([], [0, 0, 1, 8]) ∧ shift [1, 2, 3] [4, 5, 6] 1 = ([1, 2, 3, 4], [5, 6]) ∧
     shift [1] [] 3 = ([1, 0, 0, 0], []) := by decide
 
